@@ -97,7 +97,7 @@ func main() {
 	p.loadSeconds = time.Since(start).Seconds()
 	to := *timeout
 	if to == 0 {
-		to = 15
+		to = 20
 		if *tier == "thorough" {
 			to = 60
 		}
